@@ -36,39 +36,50 @@ def _mentions_local(node, l):
 
 
 def while_counters(fn, rec):
-    """Hand-written counters `let mut j = k; while j < N { .. j += 1; }` -> {local: (header, k, N)}.
-    Conditions (all necessary for `j` to be "k + iteration position" at every use in the body, with exactly N - k iterations):
-      * j has exactly two whole definitions: a constant outside every loop that contains the other one, and `j = j + 1` inside the loop;
+    """Hand-written counters `let mut j = k; while j < N { .. j += 1; }` -> {local: (header, k, N)}; N is None for a counter that merely
+    runs in lock-step with the guarded one (`res_row += 1` next to `seq_row += 1`).
+    Conditions (all necessary for `j` to be "k + iteration position" at every use in the body):
+      * j has exactly two whole definitions: a loop-invariant value outside the loop, and `j = j + 1` inside it;
       * the increment is executed on every iteration (dominates every latch) and nothing in the loop reads j after it
         (no block strictly dominated by the increment's block mentions j, nor a later statement of that block);
-      * the loop has one normal exit, taken from the header's guard `j < N`;
-      * N is loop-invariant: a constant, a local defined once outside the loop, or rows()/len()/columns() of a place rooted in a
-        shared-reference parameter."""
+      * for the guarded counter: `j < N` is decided by a block of the loop that dominates the body and whose other edge leaves the loop,
+        with a loop-invariant N (constant, local defined once outside the loop, rows()/len()/columns() of a place that is not mutated).
+    Other exits (an early `return` / `?`) do not change what j is; rules that need *every* position check the exits themselves."""
     from . import guards as G
     out = {}
     if fn is None or rec is None:
         return out
     can = fn.postdominators()
+    steppers = {}
     for l, ds in fn.defs().items():
         if len(ds) != 2 or l in getattr(fn, 'borrowed_mut', set()) or fn.partial.get(l):
             continue
         inl = lambda d: [L_ for L_ in fn.loops() if d[0] in L_['body']]
-        incs = [d for d in ds if inl(d) and d[1] != 'term']
-        inits = [d for d in ds if d not in incs and d[1] != 'term']
-        if len(incs) != 1 or len(inits) != 1:
+
+        def is_inc(d):
+            if d[1] == 'term' or not inl(d):
+                return False
+            try:
+                b_ = m(('bin', 'Add', '$a', ('k', 1)), norm(rec.rvalue(d[2])))
+            except Exception:
+                return False
+            return b_ is not None and b_['$a'] == ('v', l)
+        incs = [d for d in ds if is_inc(d)]
+        if len(incs) != 1:
             continue
         bi, si, rv = incs[0]
+        L = min(inl(incs[0]), key=lambda L_: len(L_['body']))
+        inits = [d for d in ds if d is not incs[0] and d[0] not in L['body'] and d[1] != 'term']
+        if len(inits) != 1:
+            continue
         try:
-            uv, iv = norm(rec.rvalue(rv)), norm(rec.rvalue(inits[0][2]))
+            iv = norm(rec.rvalue(inits[0][2]))
         except Exception:
             continue
-        b = m(('bin', 'Add', '$a', ('k', 1)), uv)
-        if b is None or b['$a'] != ('v', l) or iv[0] != 'k' or not isinstance(iv[1], int) or isinstance(iv[1], bool):
+        if not _invariant(fn, L, iv):
             continue
-        L = max(inl(incs[0]), key=lambda L_: len(L_['body'])) if False else min(inl(incs[0]), key=lambda L_: len(L_['body']))
-        if inits[0][0] in L['body'] or not all(fn.dominates(bi, lt) for lt in L['latches']):
+        if not all(fn.dominates(bi, lt) for lt in L['latches']):
             continue
-        # nothing reads j after the increment within the iteration
         late = False
         for bj in L['body']:
             blk = fn.blocks[bj]
@@ -83,20 +94,26 @@ def while_counters(fn, rec):
                 break
         if late:
             continue
+        steppers[l] = (L, bi, iv)
+    # the guarded counter of each loop
+    guarded = {}
+    for l, (L, bi, iv) in steppers.items():
         exits = [(a, c) for a, c in L['exits'] if c in can]
-        if len(exits) != 1:
-            continue
-        # the guard j < N holds on entry to the increment's block and is decided by the exiting block
-        rels = G.relations(fn, rec, bi)
         N = None
-        for r in rels:
-            if r[0] == 'lt' and norm(r[1]) == ('v', l) and r[-1] == exits[0][0]:
+        for r in G.relations(fn, rec, bi):
+            src_ok = any(a == r[-1] for a, _ in exits) and all(fn.dominates(r[-1], lt) for lt in L['latches'])
+            if not src_ok:
+                continue
+            if r[0] == 'lt' and norm(r[1]) == ('v', l):
                 N = norm(r[2])
-            elif r[0] == 'gt' and norm(r[2]) == ('v', l) and r[-1] == exits[0][0]:
+            elif r[0] == 'gt' and norm(r[2]) == ('v', l):
                 N = norm(r[1])
-        if N is None or not _invariant(fn, L, N):
-            continue
-        out[l] = (L['header'], iv, N)
+        if N is not None and _invariant(fn, L, N):
+            out[l] = (L['header'], iv, N)
+            guarded.setdefault(L['header'], l)
+    for l, (L, bi, iv) in steppers.items():
+        if l not in out and L['header'] in guarded:
+            out[l] = (L['header'], iv, None)
     return out
 
 
@@ -108,11 +125,16 @@ def _invariant(fn, L, e):
         return len(ds) == 1 and ds[0][0] not in L['body'] and e[1] not in fn.borrowed_mut
     if e[0] == 'p':
         return not fn.defs().get(e[1]) and e[1] not in fn.borrowed_mut
+    if e[0] == 'fld':
+        r = e
+        while r[0] in ('fld', 'deref', 'ref'):
+            r = r[1]
+        return r[0] == 'p' and not fn.defs().get(r[1]) and r[1] not in fn.borrowed_mut and not fn.local_ty(r[1]).startswith('&mut') and not fn.partial.get(r[1])
     if e[0] == 'call' and e[1].endswith(('::rows', '::len', '::columns')) and len(e[2]) == 1:
         r = e[2][0]
         while r[0] in ('fld', 'deref', 'ref'):
             r = r[1]
-        return r[0] == 'p' and fn.local_ty(r[1]).startswith('&') and not fn.local_ty(r[1]).startswith('&mut')
+        return r[0] == 'p' and not fn.local_ty(r[1]).startswith('&mut') and r[1] not in fn.borrowed_mut and not fn.defs().get(r[1])
     return False
 
 
@@ -187,8 +209,9 @@ class Canon:
                 return ('at', Xs, pos), [('len', Xs)]
         # a slice / array value iterated directly (`for c in A::symbols()`, `for x in &v`): the loop's iterator local is a plain slice
         # iterator, so S itself is the collection (any adaptor in between would change that type)
-        if self.fn is not None and isinstance(L, int) and 0 <= L < len(self.fn.locals) and not (S[0] == 'call' and 'iter::' in S[1] and 'Iterator::' in S[1]):
-            ty = self.fn.local_ty(L)
+        ptypes = getattr(self, 'pipe_types', {})
+        if self.fn is not None and ((isinstance(L, int) and 0 <= L < len(self.fn.locals)) or L in ptypes) and not (S[0] == 'call' and 'iter::' in S[1] and 'Iterator::' in S[1]):
+            ty = ptypes[L] if L in ptypes else self.fn.local_ty(L)
             # (the adaptors around it — Enumerate<..>, Zip<..> — were peeled structurally on the way here; the leaf must be a slice iterator)
             if any(k in ty for k in ('core::slice::Iter<', 'core::slice::IterMut<', 'core::slice::iter::Iter<', 'core::slice::iter::IterMut<')) \
                     and S[0] in ('v', 'p', 'fld', 'elem', 'call', 'at', 'idx'):
@@ -221,7 +244,13 @@ class Canon:
         if t == 'v' and self.fn is not None and e[1] in self.counters():
             h, k0, N = self.counters()[e[1]]
             L = ('while', h)
-            self.extents[L] = [('sub', self.canon(N), k0)]
+            if N is not None:
+                self.extents[L] = [('sub', self.canon(N), k0)]
+            else:
+                # a lock-step counter: the extent is that of the loop's guarded counter
+                g = [v for v in self.counters().values() if v[0] == h and v[2] is not None]
+                if g:
+                    self.extents[L] = [('sub', self.canon(g[0][2]), g[0][1])]
             return ('pos', L) if k0 == ('k', 0) else ('bin', 'Add', k0, ('pos', L))
         if t == 'elem':
             r = self.elem_of(e[1], e[2])
